@@ -51,9 +51,8 @@ class Rng:
         return Rng(h)
 
 
-def _run_shard(exe, lines):
-    if not lines:
-        return []
+def _run_once(exe, lines):
+    """one process over `lines`: (answers so far, status) where status is None when all were answered"""
     data = ('\n'.join(lines) + '\n').encode()
     # a runaway implementation must not take the machine down: address space and wall clock are bounded
     # (a killed or aborted process is reported as CRASH and is itself a finding for C01)
@@ -62,19 +61,40 @@ def _run_shard(exe, lines):
         resource.setrlimit(resource.RLIMIT_AS, (3 << 30, 3 << 30))
     try:
         p = subprocess.run([exe], input=data, capture_output=True, preexec_fn=limits if exe == IMPL else None,
-                           timeout=max(120, len(lines) // 4))
+                           timeout=(20 if len(lines) == 1 else 45 + len(lines) // 40))
         stdout, rc = p.stdout, p.returncode
     except subprocess.TimeoutExpired as e:
         stdout, rc = e.stdout or b'', 'timeout'
-    out = stdout.decode('utf8', 'replace').split('\n')
-    if rc == 'timeout' and out and out[-1] != '':
-        out.pop()           # a partial last line
+    text = stdout.decode('utf8', 'replace')
+    out = text.split('\n')
     if out and out[-1] == '':
         out.pop()
-    if len(out) < len(lines):
-        # the process died (abort / stack overflow / OOM): mark the first unanswered request
-        out += [f'CRASH rc={rc}'] + ['UNANSWERED'] * (len(lines) - len(out) - 1)
-    return out[:len(lines)]
+    elif out:
+        out.pop()           # a partial last line
+    if len(out) >= len(lines):
+        return out[:len(lines)], None
+    return out, rc
+
+
+def _run_shard(exe, lines):
+    """answers for `lines`, in order. The executables answer line by line (flushed), so when a process dies or is
+    stopped for taking too long the first unanswered request is the one that did it: it is marked CRASH and the rest
+    of the shard goes to a fresh process."""
+    res = []
+    rest = list(lines)
+    crashes = 0
+    while rest:
+        out, rc = _run_once(exe, rest)
+        res.extend(out)
+        if rc is None:
+            break
+        res.append(f'CRASH rc={rc}')
+        rest = rest[len(out) + 1:]
+        crashes += 1
+        if crashes > 12:
+            res.extend(['UNANSWERED'] * len(rest))
+            break
+    return res
 
 
 def run_exe(exe, lines, shards=NPROC):
@@ -88,12 +108,6 @@ def run_exe(exe, lines, shards=NPROC):
         outs = list(ex.map(lambda c: _run_shard(exe, c), chunks))
     res = []
     for c, o in zip(chunks, outs):
-        if any(x.startswith('CRASH') for x in o):
-            # re-run the shard request by request to isolate the crashing request
-            o = []
-            for ln in c:
-                r = _run_shard(exe, [ln])
-                o.append(r[0] if r else 'CRASH')
         res.extend(o)
     return res
 
